@@ -668,7 +668,7 @@ fn tlv(tag: u8, content: &[u8]) -> Vec<u8> {
 
 /// a certificate that x509-cert parses but would re-encode differently:
 /// kind 0 = the two attributes of a multi-valued RDN are not in DER SET order; kind 1 = version v1 written explicitly
-fn noncanonical_cert(rng: &mut StdRng, kind: u8) -> Vec<u8> {
+pub(crate) fn noncanonical_cert(rng: &mut StdRng, kind: u8) -> Vec<u8> {
     let h = |s: &str| hex::decode(s).unwrap();
     let cn: Vec<u8> = (0..rng.gen_range(1..12)).map(|_| rng.gen_range(b'a'..=b'z')).collect();
     let atv_cn = tlv(0x30, &[h("0603550403"), tlv(0x0c, &cn)].concat());
